@@ -507,6 +507,10 @@ Definition handshakes (tr : list event) : list bool :=
 Definition bits_seen (tr : list event) : list N :=
   flat_map (fun e => match e with EIn _ st _ => [st] | ENeg _ st _ => [st] | _ => [] end) tr.
 
+(* the features whose Negotiate ran *)
+Definition negs_of (tr : list event) : list feature :=
+  flat_map (fun e => match e with ENeg f _ _ => [f] | _ => [] end) tr.
+
 Definition starttls_request : witem := WElem ns_StartTLS str_starttls.
 
 (* the only things a client may write in clear text *)
